@@ -376,12 +376,34 @@ pub enum Fault {
     /// replace the honest reply by this message (header id/question are
     /// patched from the request unless `raw_header`)
     Substitute(Box<Message>),
+    /// as `Substitute` (id and question copied from the request) with one
+    /// header defect applied afterwards
+    SubstituteMangled(Box<Message>, Mangle),
+}
+
+#[derive(Debug, Clone, Copy, Eq, PartialEq)]
+pub enum Mangle {
+    WrongId,
+    Qr0,
+    Opcode,
+    Tc,
+    Rcode(u8),
+    AlterQuestion,
+    QuestionType,
+    NoQuestion,
+    TwoQuestions,
 }
 
 pub fn show_fault(f: &Fault) -> String {
     match f {
         Fault::Substitute(m) => format!(
             "Substitute(an={:?}, ns={:?}, ar={:?})",
+            canon_rrs(&m.answers),
+            canon_rrs(&m.authority),
+            canon_rrs(&m.additional)
+        ),
+        Fault::SubstituteMangled(m, g) => format!(
+            "SubstituteMangled({g:?}, an={:?}, ns={:?}, ar={:?})",
             canon_rrs(&m.answers),
             canon_rrs(&m.authority),
             canon_rrs(&m.additional)
@@ -533,6 +555,35 @@ fn apply_fault(
             }
             Some(enc(&m))
         }
+        Fault::SubstituteMangled(sub, mangle) => {
+            let mut m = (**sub).clone();
+            m.header.id = request.header.id;
+            m.questions = request.questions.clone();
+            match mangle {
+                Mangle::WrongId => m.header.id = m.header.id.wrapping_add(1),
+                Mangle::Qr0 => m.header.is_response = false,
+                Mangle::Opcode => m.header.opcode = Opcode::from(2),
+                Mangle::Tc => m.header.is_truncated = true,
+                Mangle::Rcode(c) => m.header.rcode = Rcode::from(*c),
+                Mangle::AlterQuestion => {
+                    if let Some(qq) = m.questions.first_mut() {
+                        qq.name = prepend(b"other", &qq.name);
+                    }
+                }
+                Mangle::QuestionType => {
+                    if let Some(qq) = m.questions.first_mut() {
+                        qq.qtype = QueryType::Record(RecordType::MX);
+                    }
+                }
+                Mangle::NoQuestion => m.questions.clear(),
+                Mangle::TwoQuestions => {
+                    if let Some(qq) = m.questions.first().cloned() {
+                        m.questions.push(qq);
+                    }
+                }
+            }
+            Some(enc(&m))
+        }
     };
     (Ok(bytes), delay)
 }
@@ -568,6 +619,10 @@ pub struct Exchange {
     pub honest_depth: usize,
     /// records of the reply as sent (if it decodes)
     pub sent: Vec<ResourceRecord>,
+    /// the reply as sent, if it decodes as a whole
+    pub sent_msg: Option<Message>,
+    /// label count of the deepest zone served at the address asked (0 = none)
+    pub server_depth: usize,
     /// which step (question of the history) this belongs to
     pub step: usize,
 }
@@ -713,6 +768,16 @@ impl Transport for MockTransport {
                 honest_kind: honest.kind.clone(),
                 honest_depth: honest.zone_depth,
                 sent,
+                sent_msg: match &outcome {
+                    Ok(Some(b)) => refwire::decode(b).ok(),
+                    _ => None,
+                },
+                server_depth: env
+                    .universe
+                    .serving
+                    .get(&address.ip())
+                    .and_then(|zs| zs.iter().map(|z| env.universe.zones[*z].apex.labels.len()).max())
+                    .unwrap_or(0),
                 step,
             });
         }
